@@ -179,7 +179,11 @@ func ctxSnapshot(c *rux.Context, rec *Rec) string {
 		sort.Strings(list)
 		allowed = strings.Join(list, ",")
 	}
-	return fmt.Sprintf("query=%v page=%q allowed=%s data=%v params={%s} params_nil=%v errors=%d errors_nil=%v errors_spare_capacity=%d first_error=%v aborted=%v status=%d length=%d resp_type=%T raw_writer_is_own=%v req_is_own=%v handler_nil=%v router_is_own=%v",
+	// what the getters derive from the request of THIS exchange (a memoised answer of an earlier
+	// request would show here)
+	derived := fmt.Sprintf("accepted=%q ctype=%q ajax=%v websocket=%v client_ip=%q get=%v post=%v",
+		c.AcceptedTypes(), c.ContentType(), c.IsAjax(), c.IsWebSocket(), c.ClientIP(), c.IsGet(), c.IsPost())
+	return derived + " " + fmt.Sprintf("query=%v page=%q allowed=%s data=%v params={%s} params_nil=%v errors=%d errors_nil=%v errors_spare_capacity=%d first_error=%v aborted=%v status=%d length=%d resp_type=%T raw_writer_is_own=%v req_is_own=%v handler_nil=%v router_is_own=%v",
 		qk, c.Query("page"), allowed, keys, fmtParams(copyParams(c.Params)), c.Params == nil, len(c.Errors), c.Errors == nil, cap(c.Errors)-len(c.Errors), c.FirstError(), c.IsAborted(), c.StatusCode(), c.Length(),
 		c.Resp, c.RawWriter() == any(rec), ownReq, c.Handler() == nil, ownRouter)
 }
@@ -195,7 +199,7 @@ func snapMW(c *rux.Context) {
 }
 
 func runC10(e *Env) {
-	e.Rule = "request histories (10..60 requests) on one router built from a generated registration program with an always-first snapshot middleware (or, on routers without any global middleware, the first instrumented handler of the chain snapshots); requests mix static, dynamic, 404, 405 routes; per request a designated handler performs dirtying actions drawn from {Set many keys, AddError x2, replace c.Resp, replace c.Req, Abort, SetStatus, write, assign Params, edit the Params map in place, edit the parsed query values, render a template (successfully or failing half way), set a response header, retain a Copy() of the context and its Data() map for 'background work' that writes to them while later requests are being served}, or panics (with an OnPanic hook, or without one so that the panic escapes ServeHTTP and is recovered by the caller), or serves a nested request. Observed by the first handler of every request: parsed query values, Data keys, Params, Errors, IsAborted, StatusCode, Length, type of c.Resp, RawWriter is this request's writer, c.Req is this request, Handler() non-nil, *Context pointer. Oracle (twin): the snapshot and the outcome of the k-th request equal those of the same request sent as the FIRST request to a freshly built identical router. Pooled-context reuse is measured by pointer identity; zero reuse => inconclusive. Non-trivial: a request served by a reused context whose previous user dirtied it; distinct by (program, history prefix). Further actions: edit the allowed-methods list in place, re-dispatch through HandleContext, hand the request over to another router's HandleContext (the snapshot includes whether c.Router() is the serving router), hijack the connection; a quarter of the requests arrive with the very writer object of the previous request (a server layer that recycles its writers); routes without variables but with an optional part; the snapshot also shows the allowed list and the nil-ness of Params and is checked for markers only an earlier handler can have written. The dirtying actions include JSON/JSONP responses of encodable and unencodable values (whatever a failed encoding left behind must not show in a later body)."
+	e.Rule = "request histories (10..60 requests) on one router built from a generated registration program with an always-first snapshot middleware (or, on routers without any global middleware, the first instrumented handler of the chain snapshots); requests mix static, dynamic, 404, 405 routes; per request a designated handler performs dirtying actions drawn from {Set many keys, AddError x2, replace c.Resp, replace c.Req, Abort, SetStatus, write, assign Params, edit the Params map in place, edit the parsed query values, render a template (successfully or failing half way), set a response header, retain a Copy() of the context and its Data() map for 'background work' that writes to them while later requests are being served}, or panics (with an OnPanic hook, or without one so that the panic escapes ServeHTTP and is recovered by the caller), or serves a nested request. Observed by the first handler of every request: parsed query values, Data keys, Params, Errors, IsAborted, StatusCode, Length, type of c.Resp, RawWriter is this request's writer, c.Req is this request, Handler() non-nil, *Context pointer. Oracle (twin): the snapshot and the outcome of the k-th request equal those of the same request sent as the FIRST request to a freshly built identical router. Pooled-context reuse is measured by pointer identity; zero reuse => inconclusive. Non-trivial: a request served by a reused context whose previous user dirtied it; distinct by (program, history prefix). Further actions: edit the allowed-methods list in place, re-dispatch through HandleContext, hand the request over to another router's HandleContext (the snapshot includes whether c.Router() is the serving router), hijack the connection; a quarter of the requests arrive with the very writer object of the previous request (a server layer that recycles its writers); routes without variables but with an optional part; the snapshot also shows the allowed list and the nil-ness of Params and is checked for markers only an earlier handler can have written. The dirtying actions include JSON/JSONP responses of encodable and unencodable values (whatever a failed encoding left behind must not show in a later body). About half of the requests carry Accept / Content-Type / X-Requested-With / Upgrade / X-Forwarded-For / X-Real-Ip headers and the snapshot includes what AcceptedTypes, ContentType, IsAjax, IsWebSocket, ClientIP, IsGet, IsPost answer (derived from this request, not from an earlier one)."
 	e.Assumptions = []string{
 		"sequential histories: sync.Pool hands the same *Context back almost always (measured, not assumed)",
 		"a fresh identical router is the specification of 'pristine'",
@@ -310,6 +314,21 @@ func c10Case(t *T) {
 			dirty = true
 		}
 		hdr["X-RawQuery"] = pick(r, []string{"", "", "page=1&sort=asc&tag=a", "page=1&sort=asc&tag=a", "q=x"})
+		// headers the request-derived getters read; absent for about half of the requests
+		for _, hv := range [][]string{
+			{"Accept", "application/json", "text/html, application/xml;q=0.9, */*;q=0.8", "text/plain"},
+			{"Content-Type", "application/json", "application/x-www-form-urlencoded"},
+			{"X-Requested-With", "XMLHttpRequest"},
+			{"Upgrade", "websocket"},
+			{"Connection", "Upgrade", "keep-alive, Upgrade"},
+			{"X-Forwarded-For", "10.1.2.3, 10.0.0.1", "192.168.7.7"},
+			{"X-Real-Ip", "172.16.0.9"},
+		} {
+			if chance(r, 1, 2) {
+				hdr[hv[0]] = pick(r, hv[1:])
+				t.Count("header."+hv[0], 1)
+			}
+		}
 		t.Count("kind."+q.Kind, 1)
 		histDesc = append(histDesc, fmt.Sprintf("#%d %s %v", k, q, hdr))
 
